@@ -1,2 +1,44 @@
-(* C05 -- statement file; proofs in Sess/ *)
-From SV Require Import Sess.Model.
+(* C05 -- receiving arbitrary bytes either yields messages or fails closed. *)
+From Coq Require Import ZArith List.
+From Coq.Strings Require Import Byte.
+From SV Require Import Base.Bytes Base.Py Msg.Types Msg.Decode Sess.Model Sess.Total.
+Import ListNotations.
+
+(* for EVERY history of calls that led to the current state, every byte string and every recursion
+   budget d: receive returns a list of messages or raises ProtocolError -- never IndexError,
+   KeyError, RecursionError, an exhausted loop or anything else the model can express *)
+Theorem C05_receive_total :
+  forall d r cs data s' o, receive d (fst (run d (init r) cs)) data = (s', o) ->
+  (exists ms, o = ORetMsgs ms) \/ (exists p, o = OProtoErr p).
+Proof. exact receive_total_reachable. Qed.
+
+(* the same for any state satisfying the bookkeeping invariant (search ids are outstanding ids) *)
+Theorem C05_receive_total_invariant :
+  forall d s data s' o, good s -> receive d s data = (s', o) ->
+  (exists ms, o = ORetMsgs ms) \/ (exists p, o = OProtoErr p).
+Proof. exact receive_total. Qed.
+
+Theorem C05_invariant_holds_in_every_reachable_state : forall d r cs, good (fst (run d (init r) cs)).
+Proof. exact good_reachable. Qed.
+
+(* after a protocol error the session reports CLOSED and refuses all further input, unchanged *)
+Theorem C05_fail_closed :
+  forall d s data s' p, step d s (Receive data) = (s', OProtoErr p) ->
+  s_state s' = CLOSED /\
+  forall data2 s2 o2, step d s' (Receive data2) = (s2, o2) -> s2 = s' /\ exists q, o2 = OProtoErr q.
+Proof. exact fail_closed. Qed.
+
+(* the stream parser's loop fuel (|input| + 1) is never exhausted; the only crash it can report is
+   the interpreter's recursion limit, which receive converts into the protocol error *)
+Theorem C05_parser_needs_no_more_fuel :
+  forall d fuel r acc k, (length r < fuel)%nat -> parse_loop fuel d r acc = Raise (Crash k) -> k = RecursionErr.
+Proof. exact parse_loop_benign. Qed.
+
+Example C05_zero_length_integer : exists s', receive 10 (init Client) [x30; x02; x02; x00] = (s', OProtoErr PUnbind).
+Proof. eexists. vm_compute. reflexivity. Qed.
+
+Print Assumptions C05_receive_total.
+Print Assumptions C05_receive_total_invariant.
+Print Assumptions C05_invariant_holds_in_every_reachable_state.
+Print Assumptions C05_fail_closed.
+Print Assumptions C05_parser_needs_no_more_fuel.
